@@ -11,6 +11,7 @@ import (
 )
 
 func reset() {
+	curLimit = 1024
 	sem.MaxInputLength = 1024
 	sem.Formatter = sem.DefaultFormatter
 	sem.Parser = sem.DefaultParser[[]byte]
@@ -87,6 +88,22 @@ func probeCoreLaws(p coreArg) (string, string) {
 	if c, err := sem.Compare(va.String(), vb.String()); err != nil || c != ab {
 		return "helper_vs_parsed_values", fmt.Sprintf("Compare(%q,%q) = %d, %v but comparing the values gives %d", va.String(), vb.String(), c, err, ab)
 	}
+	// the same cores with a pre-release on one or both sides (a release ranks above its own pre-releases, whatever the core)
+	for _, pp := range [][2]string{{"", "alpha"}, {"alpha", ""}, {"alpha", "beta"}, {"rc.1", "rc.1"}} {
+		wa := sem.Ver{Major: p.A[0], Minor: p.A[1], Patch: p.A[2], PreRelease: pp[0]}
+		wb := sem.Ver{Major: p.B[0], Minor: p.B[1], Patch: p.B[2], PreRelease: pp[1]}
+		x, y := wa.Compare(wb), wb.Compare(wa)
+		if x != -y || x < -1 || x > 1 {
+			return "antisymmetry", fmt.Sprintf("%s Compare %s = %d but reverse = %d", wa, wb, x, y)
+		}
+		l, l2 := wa.Latest(wb), wb.Latest(wa)
+		if x < 0 && (l != wb || l2 != wb) || x > 0 && (l != wa || l2 != wa) || l != wa && l != wb {
+			return "latest_is_lower", fmt.Sprintf("%s Latest %s = %s, reverse %s, although Compare = %d", wa, wb, l, l2, x)
+		}
+		if ls, err := sem.Latest(wa.String(), wb.StringTag()); err != nil || ls != l {
+			return "latest_vs_parsed_values", fmt.Sprintf("Latest(%q,%q) = %s, %v but Latest of the values gives %s", wa.String(), wb.StringTag(), ls, err, l)
+		}
+	}
 	return "", ""
 }
 
@@ -109,9 +126,17 @@ type helperArg struct {
 	A      mc.Bin `json:"a"`
 	B      mc.Bin `json:"b"`
 	Custom int    `json:"custom_compare_prerelease,omitempty"` // 0 default; 1 reversed order; 2 plain string order (installed as sem.ComparePreRelease)
+	Limit  *int   `json:"max_input_length,omitempty"`          // nil = default 1024
 }
 
+var curLimit = 1024
+
 func setupHelpers(a helperArg) {
+	curLimit = 1024
+	if a.Limit != nil {
+		curLimit = *a.Limit
+	}
+	sem.MaxInputLength = curLimit
 	switch a.Custom {
 	case 1:
 		sem.ComparePreRelease = func(x, y string) int { return -sem.DefaultComparePreRelease(x, y) }
@@ -124,7 +149,7 @@ func setupHelpers(a helperArg) {
 
 // validity of a text for a helper by the reference recogniser: policy 0 optional v, 1 forbidden, 2 required
 func validFor(s string, policy int) bool {
-	if s == "" {
+	if s == "" || curLimit != 0 && len(s) > curLimit {
 		return false
 	}
 	tag := s[0] == 'v'
@@ -248,7 +273,8 @@ func main() {
 			L = 5
 		}
 		U := append([]string{""}, oracle.PreReleases("0129aB-.", L)...)
-		mixed := []string{"a01", "a1", "a0x", "rc10", "rc9", "a001", "a10", "a100", "a11", "rc.9", "rc.10", "a1b", "a01b", "x-1", "x-01", "x-10", "1a", "01a", "1a1", "1a01", "alpha", "alpha1", "alpha01.1", "alpha1.01a", "a.b.c.d.e", "a.b.c.d.e.f", "0.0.0.0", "a1.2", "a01.3", "a-", "a-0", "a-00", "-", "--", "-0", "-00"}
+		mixed := []string{"a01", "a1", "a0x", "rc10", "rc9", "a001", "a10", "a100", "a11", "rc.9", "rc.10", "a1b", "a01b", "x-1", "x-01", "x-10", "1a", "01a", "1a1", "1a01", "alpha", "alpha1", "alpha01.1", "alpha1.01a", "a.b.c.d.e", "a.b.c.d.e.f", "0.0.0.0", "a1.2", "a01.3", "a-", "a-0", "a-00", "-", "--", "-0", "-00",
+			"18446744073709551615", "18446744073709551616", "18446744073709551617", "99999999999999999999", "100000000000000000000", "a18446744073709551616", "a18446744073709551617", "1.18446744073709551616", "1.18446744073709551617", "x.99999999999999999999999999"}
 		U = append(U, mixed...)
 		r.Extra["prerelease_universe"] = len(U)
 		r.Phase(fmt.Sprintf("laws on all %d^2 ordered pairs (valid pre-releases of length <= %d + %d mixed identifiers)", len(U), L, len(mixed)), "complete", func() {
@@ -320,6 +346,20 @@ func main() {
 			})
 		})
 		r.Sample("helpers", helperArg{A: "v1.0.0-a1", B: "1.0.0-a01"})
+		for _, ml := range []int{0, 2000, 12} {
+			ml := ml
+			r.Phase(fmt.Sprintf("string helpers with sem.MaxInputLength=%d: errors exactly when a text is invalid for the helper (or longer than a non-zero limit)", ml), "complete over the text set", func() {
+				sem.MaxInputLength = ml
+				curLimit = ml
+				r.Parallel(int64(len(texts)), 1, func(w *mc.W, i int64) {
+					for j := range texts {
+						w.Point()
+						pH.Do(w, helperArg{A: mc.Bin(texts[i]), B: mc.Bin(texts[j]), Limit: &ml})
+					}
+				})
+				reset()
+			})
+		}
 		for custom := 1; custom <= 2; custom++ {
 			custom := custom
 			r.Phase(fmt.Sprintf("string helpers with a user-installed sem.ComparePreRelease (#%d): every helper must still return what comparing the parsed values returns", custom), "complete over the text set", func() {
